@@ -810,11 +810,23 @@ def _quotes_for_string_value(value: str) -> str | None:
         return '"'
     if '"' in value:
         return "'"
-    if ' ' in value:
+    if ' ' in value or '\t' in value:
         return "'"
     if not value:
         return "'"  # so that empty strings are shown as ''
+    if value[0] in '_#$[];' or _is_reserved_word(value):
+        # Would be mistaken for a tag, comment, text field, or keyword.
+        return "'"
     return None
+
+
+def _is_reserved_word(value: str) -> bool:
+    lower = value.lower()
+    return lower.startswith(('data_', 'save_')) or lower in (
+        'loop_',
+        'stop_',
+        'global_',
+    )
 
 
 def _encode_non_ascii(s: str) -> str:
@@ -836,6 +848,11 @@ def _format_value(value: Any) -> str:
     s = _encode_non_ascii(s)
 
     if (quotes := _quotes_for_string_value(s)) == ';':
+        if '\n;' in s:
+            raise ValueError(
+                'Cannot encode a string that contains a semicolon at the start '
+                f'of a line in CIF: {s!r}'
+            )
         return f'; {s}\n;'
     elif quotes is not None:
         return quotes + s + quotes
